@@ -348,7 +348,7 @@ fn main() {
             "scenario_cases": items.len(), "symbolic_paths": paths,
             "obligations": total.obligations, "discharged": total.discharged, "by_rule": by_rule,
             "branch_decisions": {"valid_by_solver": total.decisions_valid, "infeasible_by_solver": total.decisions_infeasible, "forks": total.forks, "generic_position_assumptions": total.assumed},
-            "solver": {"binary": std::env::var("SYMFROST_Z3").unwrap_or("/usr/bin/z3".into()), "logic": "QF_NIA with (mod _ q)", "queries": total.z3_queries, "unsat": total.z3_unsat, "sat": total.z3_sat, "unknown": total.z3_unknown},
+            "solver": {"binary": std::env::var("SYMFROST_Z3").unwrap_or("/usr/bin/z3".into()), "logic": "QF_NIA with (mod _ q)", "queries": total.z3_queries, "unsat": total.z3_unsat, "sat": total.z3_sat, "unknown": total.z3_unknown, "queries_resent_after_polynomial_normalisation": total.normalized_fallbacks},
             "solver_s": total.z3_ms / 1000.0,
             "q": q_hex,
             "uf_applications": total.uf_apps, "term_nodes": total.nodes, "path_models_confirmed_by_solver": total.worlds_confirmed, "naf_multiscalar_calls_decoded": total.naf_calls,
@@ -365,6 +365,16 @@ fn main() {
     }
     std::fs::write(&args.out, serde_json::to_string_pretty(&ev).unwrap()).expect("write evidence");
 
+    {
+        let mut hist: BTreeMap<String, (u64, bool)> = BTreeMap::new();
+        for (_, f) in failures.iter() {
+            let e = hist.entry(f.label.clone()).or_insert((0, f.inconclusive));
+            e.0 += 1;
+        }
+        for (l, (n, inc)) in hist.iter().take(25) {
+            println!("  failure-label x{n}{}: {l}", if *inc { " [engine/inconclusive]" } else { "" });
+        }
+    }
     for l in &known_hits {
         println!("{l}");
     }
